@@ -5,7 +5,7 @@ claim("C16",
       "DESIGN.md section 4, C16")
 claim("C01",
       "exhaustive token-sequence enumeration + rapid trees/strings + adversarial big shapes under recover and a watchdog",
-      "Every token sequence up to a stated length over four alphabets (31-token full, 22-token class-reduced, three 10-token focus alphabets), random printed trees in all layouts, random bytes / hostile fragments / token soups, and 22 adversarial shapes of thousands of tokens, each with and without a default field, are pushed through Parse, ToPostgres, ToParameterizedPostgres, String, %#v and json.Marshal; any panic, any %! marker (inputs without %) and any call on a small input that does not return within 20 s is a violation. Growth ratios on doubling are recorded as evidence for 'polynomial', not used as a verdict.",
+      "Every token sequence up to a stated length over the alphabets (37-token full, 22-token class-reduced, four 10/11-token focus alphabets incl. comparisons) plus the range frames (token sequences around one complete range), random printed trees in all layouts, single hostile terms, random bytes / hostile fragments / token soups, and about 40 adversarial shapes of thousands of tokens, each with and without a default field, are pushed through Parse, ToPostgres, ToParameterizedPostgres, String, %#v and json.Marshal; any panic, any %! marker (inputs without %) and any call on a small input that does not return within 20 s is a violation. Growth ratios on doubling are recorded as evidence for 'polynomial', not used as a verdict.",
       "Absence of panics is shown only for the explored inputs. 'Polynomial time' is evidenced (growth table), only hangs are decided. Native fuzzing (thorough) is not seedable.",
       "DESIGN.md section 4, C01")
 claim("C10",
@@ -30,7 +30,7 @@ claim("C09",
       "DESIGN.md section 4, C09")
 claim("C06",
       "exhaustive token-sequence enumeration + mutated prints; derivation matcher over every accepted input",
-      "Every token sequence up to a stated length over the full alphabet and over focus alphabets (Boolean/grouping, ranges/brackets, unary operators), random printed trees and their 1-3-token mutations, with and without a default field: whenever Parse accepts, a memoised matcher must find a derivation of the harness's token sequence from the returned tree in the documented grammar (each term token exactly one typed leaf, in order; each operator token consumed by one node of the matching kind; brackets pair around non-empty groups).",
+      "Every token sequence up to a stated length over the full alphabet and over focus alphabets (Boolean/grouping, ranges/brackets, unary operators) and the range frames (a : + 5 tokens, a : [ b TO + 1..4 tokens, a : [ + 1..3 tokens + TO c ]), random printed trees and their 1-3-token mutations, with and without a default field: whenever Parse accepts, a memoised matcher must find a derivation of the harness's token sequence from the returned tree in the documented grammar (each term token exactly one typed leaf, in order; each operator token consumed by one node of the matching kind; brackets pair around non-empty groups).",
       "The matcher is the trusted executable grammar; precedence is ignored (any derivation counts) so C06 cannot raise C05/C07 alarms; token meanings come from construction or from the harness's value-decoding spec M1.",
       "DESIGN.md section 4, C06")
 claim("C11",
